@@ -460,6 +460,174 @@ pub fn world_c18(tier: Tier, world_no: u64, mut t: Tape) -> WorldReport {
                 }
             }
         }
+        // ---- L5: builds that meet other builds, crashes and I/O faults on the output directory.
+        // The processes run under the file-system seam of the shim: the tape decides how their calls
+        // interleave, where one dies, which call is cut short or fails.
+        if let Some(Ok(first)) = l2.first() {
+            use crate::procsim::{run_scheduled, ProcSpec, Verdict};
+            let sdir = dir.join("sched");
+            let _ = std::fs::create_dir_all(sdir.join("x"));
+            let _ = std::fs::create_dir_all(sdir.join("y"));
+            let sdir_s = sdir.to_str().unwrap().to_string();
+            // (a) two builds side by side, writing sibling paths of one directory
+            let other_src = if !examples.is_empty() && t.chance(1, 2) { examples[t.index(examples.len())].1.clone() } else { sibling(&mut t, &source) };
+            let other_path = dir.join("other.tx3");
+            let _ = std::fs::write(&other_path, &other_src);
+            let ref_b = run_tx3c(other_path.to_str().unwrap(), dir.join("refb.tii").to_str().unwrap(), seeds[1]);
+            if let Ok(ref_b) = ref_b {
+                let (na, nb) = *t.pick(&[
+                    ("protocol.preview", "protocol.mainnet"),
+                    ("a.tii", "b.tii"),
+                    ("proto-1.0.1", "proto-1.0.2"),
+                    ("x/out.tii", "y/out.tii"),
+                    ("out.tii", "out.tii.new"),
+                    ("build", "build.tii"),
+                ]);
+                let specs = vec![
+                    ProcSpec { src_path: src_path.to_str().unwrap().into(), out_path: sdir.join(na).to_str().unwrap().into(), hseed: seeds[0], extra: extra.clone() },
+                    ProcSpec { src_path: other_path.to_str().unwrap().into(), out_path: sdir.join(nb).to_str().unwrap().into(), hseed: seeds[1], extra: extra.clone() },
+                ];
+                let mut decide = |pending: &[(usize, String)]| (pending[t.index(pending.len())].0, Verdict::Go);
+                match run_scheduled(&specs, &sdir_s, &mut decide) {
+                    Err(e) => {
+                        rep.harness_error = Some(format!("process-level schedule: {e}"));
+                        return rep;
+                    }
+                    Ok((outs, order)) => {
+                        // the interleaving is part of the world's fingerprint (paths without the scratch prefix)
+                        for l in &order {
+                            d.str(&l.replace(dir.to_str().unwrap_or(""), ""));
+                        }
+                        rep.fire("two-builds-interleaved");
+                        rep.evaluations += 2;
+                        if outs.iter().all(|o| o.ops.len() >= 2) {
+                            rep.probe("both-builds-made-scheduled-calls");
+                        }
+                        for (i, (name_i, want)) in [(na, first), (nb, &ref_b)].iter().enumerate() {
+                            if outs[i].code != Some(0) {
+                                rep.violate("C18", "L5-concurrent", "build-fails-next-to-another-build", format!("`{name}`: `tx3c build` exited with {:?} while another build wrote `{}` in the same directory; schedule: {}", outs[i].code, if i == 0 { nb } else { na }, order.join(" | ")));
+                                continue;
+                            }
+                            let got = std::fs::read(sdir.join(name_i)).unwrap_or_default();
+                            if &got != *want {
+                                rep.violate(
+                                    "C18",
+                                    "L5-concurrent",
+                                    "artifact-differs-next-to-another-build",
+                                    format!(
+                                        "`{name}`: two builds side by side (`-o {na}` and `-o {nb}` in one directory): `{name_i}` holds {} bytes that differ from the {} bytes the same build writes alone; schedule: {}",
+                                        got.len(),
+                                        want.len(),
+                                        crate::tape::clip(&order.join(" | "), 900)
+                                    ),
+                                );
+                            }
+                        }
+                    }
+                }
+            }
+            // (b) a build that dies at a tape-chosen call, then a rebuild onto the same path
+            {
+                let out = sdir.join(*t.pick(&["crash.tii", "protocol.preview", "x/out.tii"]));
+                let at = t.index(7);
+                let after = t.chance(1, 2);
+                let mut n = 0usize;
+                let mut decide = |pending: &[(usize, String)]| {
+                    let v = if n == at { if after { Verdict::CrashAfter } else { Verdict::CrashBefore } } else { Verdict::Go };
+                    n += 1;
+                    (pending[0].0, v)
+                };
+                let specs = vec![ProcSpec { src_path: src_path.to_str().unwrap().into(), out_path: out.to_str().unwrap().into(), hseed: seeds[0], extra: extra.clone() }];
+                match run_scheduled(&specs, &sdir_s, &mut decide) {
+                    Err(e) => {
+                        rep.harness_error = Some(format!("process-level schedule: {e}"));
+                        return rep;
+                    }
+                    Ok((outs, order)) => {
+                        for l in &order {
+                            d.str(&l.replace(dir.to_str().unwrap_or(""), ""));
+                        }
+                        if outs[0].crashed_by_sim {
+                            rep.fire("build-crashed");
+                            let left = std::fs::read(&out).map(|b| b.len() as i64).unwrap_or(-1);
+                            match run_tx3c_keep(src_path.to_str().unwrap(), out.to_str().unwrap(), seeds[0], true) {
+                                Ok(again) => {
+                                    if &again != first {
+                                        rep.violate(
+                                            "C18",
+                                            "L5-crash",
+                                            "rebuild-after-a-crashed-build",
+                                            format!("`{name}`: a build died at call {at} ({}), leaving {left} bytes at the output path; the rebuild wrote {} bytes that differ from the {} bytes a fresh path gets", order.last().cloned().unwrap_or_default(), again.len(), first.len()),
+                                        );
+                                    }
+                                }
+                                Err(e) => rep.violate("C18", "L5-crash", "rebuild-fails-after-a-crashed-build", format!("`{name}`: a build died at call {at} ({}); the rebuild fails: {e}", order.last().cloned().unwrap_or_default())),
+                            }
+                            rep.evaluations += 1;
+                        }
+                    }
+                }
+            }
+            // (c) interrupted and short writes, I/O errors: a build that reports success wrote the artifact
+            {
+                let out = sdir.join("faulty.tii");
+                let mut fired: Vec<&'static str> = vec![];
+                let mut decide = |pending: &[(usize, String)]| {
+                    let is_write = pending[0].1.starts_with("write ");
+                    let v = match t.draw(8) {
+                        5 => Verdict::Eintr,
+                        6 if is_write => Verdict::Short,
+                        7 => {
+                            if t.chance(1, 2) {
+                                Verdict::Eio
+                            } else {
+                                Verdict::Enospc
+                            }
+                        }
+                        _ => Verdict::Go,
+                    };
+                    if v != Verdict::Go {
+                        fired.push(v.name());
+                    }
+                    (pending[0].0, v)
+                };
+                let specs = vec![ProcSpec { src_path: src_path.to_str().unwrap().into(), out_path: out.to_str().unwrap().into(), hseed: seeds[0], extra: extra.clone() }];
+                match run_scheduled(&specs, &sdir_s, &mut decide) {
+                    Err(e) => {
+                        rep.harness_error = Some(format!("process-level schedule: {e}"));
+                        return rep;
+                    }
+                    Ok((outs, order)) => {
+                        for l in &order {
+                            d.str(&l.replace(dir.to_str().unwrap_or(""), ""));
+                        }
+                        d.u64(outs[0].code.unwrap_or(-1) as u64);
+                        for f in &fired {
+                            rep.fire(match *f {
+                                "EINTR" => "io-eintr",
+                                "short-write" => "io-short-write",
+                                "EIO" => "io-eio",
+                                _ => "io-enospc",
+                            });
+                        }
+                        rep.evaluations += 1;
+                        if outs[0].code == Some(0) {
+                            let got = std::fs::read(&out).unwrap_or_default();
+                            if &got != first {
+                                rep.violate(
+                                    "C18",
+                                    "L5-iofault",
+                                    "success-reported-but-artifact-differs",
+                                    format!("`{name}`: `tx3c build` exited 0 under [{}] but the artifact holds {} bytes that differ from the {} bytes of an undisturbed build; calls: {}", fired.join(", "), got.len(), first.len(), crate::tape::clip(&order.join(" | "), 700)),
+                                );
+                            }
+                        } else if !fired.is_empty() {
+                            rep.probe("build-failed-under-io-fault");
+                        }
+                    }
+                }
+            }
+        }
         TX3C_EXTRA.with(|e| e.borrow_mut().clear());
         let _ = std::fs::remove_dir_all(&dir);
         rep.evaluations += nproc as u64;
